@@ -530,11 +530,16 @@ static int vf_between_calls(void)
 		if (op == OP_SCANSTRING && memchr(vf_contents[ci].d, 0, (size_t)vf_contents[ci].n)) ci = 0;
 		vf_log(op == OP_SCANBYTES ? "SB%d " : "SS%d ", ci, 0);
 		{
-			/* the scanner must work on a private copy: hand it a scratch array and scribble over it afterwards */
-			char *tmp = vf_userbuf[vf_userbuf_n++];
-			memcpy(tmp, vf_contents[ci].d, (size_t)vf_contents[ci].n); tmp[vf_contents[ci].n] = 0;
-			h = op == OP_SCANBYTES ? yy_scan_bytes(tmp, vf_contents[ci].n VF_S1) : yy_scan_string(tmp VF_S1);
-			memset(tmp, '#', 39);
+			/* the scanner must work on a private copy of exactly the given bytes: hand it a heap block of exactly that size (a
+			 * read one byte past it is visible to the sanitizer), scribble over it and free it afterwards */
+			size_t nn = (size_t)vf_contents[ci].n + (op == OP_SCANSTRING ? 1 : 0);
+			char *tmp = (char *)malloc(nn ? nn : 1);
+			if (!tmp) vf_hard_error("malloc failed in the driver");
+			memcpy(tmp, vf_contents[ci].d, (size_t)vf_contents[ci].n);
+			if (op == OP_SCANSTRING) tmp[vf_contents[ci].n] = 0;
+			h = op == OP_SCANBYTES ? yy_scan_bytes(nn ? tmp : tmp + 1, vf_contents[ci].n VF_S1) : yy_scan_string(tmp VF_S1);
+			memset(tmp, '#', nn);
+			free(tmp);
 		}
 		if (!h) vf_fail("yy_scan_bytes/string returned NULL", ci, 0);
 		b = vf_new_mem_buf(vf_contents[ci].d, vf_contents[ci].n);
